@@ -93,6 +93,14 @@ def work(item):
             judge({"rows": new_rows, "expect": "accept", "what": name, "fields": fields}, part)
         for name, new_rows, row in cidgrammar.defects(base):
             judge({"rows": new_rows, "expect": "refuse", "row": row, "what": name}, part)
+            # the same defect with the example of that field row removed: a defect must not be reported merely because it
+            # also makes the example unacceptable (that would mask a missing structural check)
+            if row is not None and "example" not in name and "no-example" not in name:
+                target = new_rows[row - 1]
+                if len(target) > 2 and target and target[0].strip().lower() == "f" and target[2] != "":
+                    without = [list(r) for r in new_rows]
+                    without[row - 1][2] = ""
+                    judge({"rows": without, "expect": "refuse", "row": row, "what": name + ":no-example"}, part)
     part.sample({"base": bases[0]["rows"], "one rewrite": rewritten[3][0], "defects": [d[0] for d in itertools.islice(cidgrammar.defects(bases[0]), 5)]}, limit=1)
     return part
 
